@@ -59,13 +59,8 @@ def make_ts(a):
         a["muts"] = keep
         nsit = len(a["sites"])
         if all(any(m["site"] == j for m in keep) for j in range(nsit)):
-            # LdCalculator refuses sites that do not carry exactly one mutation: keep one site without any (the last one loses its mutation when
-            # there are three or more sites, otherwise a site is added behind the others if there is room)
-            free = [x for x in range(a["L"]) if x > max(s_["pos"] for s_ in a["sites"])]
-            if nsit >= 3:
-                a["muts"] = [m for m in keep if m["site"] != nsit - 1]
-            elif free:
-                a["sites"] = a["sites"] + [dict(pos=free[0], anc=0)]
+            # LdCalculator refuses sites that do not carry exactly one mutation: keep one site without any
+            a["muts"] = [m for m in keep if m["site"] != nsit - 1]      # (the generator guarantees two sites or more)
     t = gen.build_tables(a, metadata=True)
     rng = random.Random(5)
     abstr.decorate(t, rng, n_ind=2, n_pop=1)
@@ -100,6 +95,15 @@ def call(ts, tree, variant, name, kinds, args):
     S = [int(u) for u in ts.samples()]
     half = [S[: len(S) // 2] or S, S[len(S) // 2:] or S]
     x = a[0]
+
+    def bare():
+        """the node, edge, individual and population tables only (same node count): with the identity mapping everything is shared and nothing is added, so nothing but
+        the one entry that is replaced can make union refuse"""
+        tb = ts.dump_tables()
+        tb.migrations.clear()
+        tb.mutations.clear()
+        tb.sites.clear()
+        return tb
     simple = {
         "tree.parent": tree.parent, "tree.left_child": tree.left_child, "tree.right_child": tree.right_child, "tree.left_sib": tree.left_sib,
         "tree.right_sib": tree.right_sib, "tree.num_children": tree.num_children, "tree.edge": tree.edge, "tree.children": tree.children,
@@ -130,9 +134,9 @@ def call(ts, tree, variant, name, kinds, args):
         "ts.extend_haplotypes_noop": lambda l: ts.simplify(l, keep_unary=True, filter_nodes=False),
         "ts.delete_sites": lambda l: ts.delete_sites(l),
         "ts.relatedness_vector_nodes": lambda l: ts.genetic_relatedness_vector(np.ones((ts.num_samples, 1)), mode="branch", centre=False, nodes=l),
-        "tables.union_mapping_checked": lambda u: ts.dump_tables().union(ts.dump_tables(), [u] + [tskit.NULL] * (ts.num_nodes - 1), check_shared_equality=True),
-        "tables.union_mapping_unchecked": lambda u: ts.dump_tables().union(ts.dump_tables(), [u] + [tskit.NULL] * (ts.num_nodes - 1), check_shared_equality=False),
-        "ts.union_mapping_unchecked": lambda u: ts.union(ts, [tskit.NULL] * (ts.num_nodes - 1) + [u], check_shared_equality=False),
+        "tables.union_mapping_checked": lambda u: bare().union(bare(), [u] + list(range(1, ts.num_nodes)), check_shared_equality=True),
+        "tables.union_mapping_unchecked": lambda u: bare().union(bare(), [u] + list(range(1, ts.num_nodes)), check_shared_equality=False),
+        "ts.union_mapping_unchecked": lambda u: bare().tree_sequence().union(bare().tree_sequence(), list(range(ts.num_nodes - 1)) + [u], check_shared_equality=False),
         "ts.diversity_windows": lambda w: ts.diversity(windows=w, mode="branch"), "ts.afs_windows": lambda w: ts.allele_frequency_spectrum(windows=w),
         "ts.divergence_matrix_windows": lambda w: ts.divergence_matrix(windows=w, mode="branch"),
         "ts.general_stat_windows": lambda w: ts.general_stat(np.ones((ts.num_samples, 1)), lambda v: v, 1, windows=w, mode="site", strict=False),
